@@ -29,7 +29,7 @@ SPEC = {
             "return value, idempotence, then prune_above_filtration = sublevel set + return value, full read-interface sweep; (ext_*) extend_filtration "
             "vs the cone filtration of the vertex function incl. documented rescaling, decode of value and part; (big) 40-100 vertex complexes with "
             "3e3-1e5 simplices and <= 6 distinct values sorted under TBB thread limits {1,2,3,4,8,16} x background spinners x random affinity masks, "
-            "3 insertion routes, 2 option sets, TBB and non-TBB builds: one sequence hash per complex; (threads) TSan: 8 threads on independent trees. "
+            "3 insertion routes, 2 option sets, TBB and non-TBB builds: one sequence hash per complex; (hist_*) model-generated operation histories (C01's generator) with the order re-validated after every step, the cache being reset by the caller only where the documentation requires it; the filtration cache is warm before make_filtration_non_decreasing / prune / extend_filtration on half of the cases; (threads) TSan: 8 threads on independent trees. "
             "non-trivial = complex with ties and >= 6 simplices / value assignment that changes / non-constant vertex function / big complex >= 3000 simplices",
     "assumptions": ["ThreadSanitizer cannot see into the prebuilt libtbb: the schedule quantifier is decided by functional determinism over perturbed runs, not by race detection",
                     "Bitmap_cubical_complex::filtration_simplex_range validity is checked by the C13 harness",
@@ -39,6 +39,7 @@ SPEC = {
          "configs": {"order": {"quick": 800, "thorough": 60000},
                      "mfnd_default": {"quick": 1500, "thorough": 80000}, "mfnd_full": {"quick": 800, "thorough": 40000},
                      "mfnd_stable": {"quick": 800, "thorough": 40000}, "mfnd_fastp": {"quick": 800, "thorough": 40000},
+                     "hist_default": {"quick": 600, "thorough": 40000}, "hist_full": {"quick": 400, "thorough": 20000}, "hist_fastp": {"quick": 400, "thorough": 20000},
                      "ext_default": {"quick": 1000, "thorough": 50000}, "ext_full": {"quick": 600, "thorough": 30000}, "ext_fastp": {"quick": 600, "thorough": 30000}},
          "chunk": 50},
         {"name": "small_tbb", "src": ["c03_small.cpp"], "variant": "asan", "defs": ["GUDHI_USE_TBB"], "libs": ["-ltbb"],
@@ -52,7 +53,7 @@ SPEC = {
     ],
     "extra": _extra,
     "floors": {"quick": {"mfnd.changes": 1000, "prune.removes": 500, "ext.nonconstant": 500, "cmp.order_same_across_histories_and_options": 500,
-                         "cmp.big_sort": 200, "sort.seen_3plus_threads": 3, "threads.overlap_4plus": 5, "_distinct_nontrivial": 1500}},
+                         "cmp.big_sort": 200, "sort.seen_3plus_threads": 3, "threads.overlap_4plus": 5, "_distinct_nontrivial": 1500, "state.cache_warm_before_op": 1500, "ext.zero_dimensional_complex": 200, "order.checked_without_explicit_reset": 1000}},
     "manifest": {
         "text": "Runtime monitor: validity of the filtration order (permutation, monotone, faces first) and its determinism across insertion histories, "
                 "option sets, TBB/non-TBB builds, TBB thread limits, affinity masks and background load (functional determinism monitor with evidence of "
